@@ -232,6 +232,10 @@ def parse_literal(s):
     if fpart is None:
         fpart = ""
     digits = (ipart + fpart).lstrip("0")
+    if len(digits) > 60:
+        # more than 60 significant digits: the coefficient exceeds 2^127 whatever the exponent is
+        # (never convert unbounded digit strings: oracle hygiene)
+        return ("toolarge", "coeff")
     coeff = int(digits) if digits else 0
     if sgn == "-":
         coeff = -coeff
@@ -239,8 +243,8 @@ def parse_literal(s):
         exp = 0
     else:
         ed = edigits.lstrip("0")
-        if len(ed) > 6:
-            exp = 10 ** 7  # "huge"; bounded before any use
+        if len(ed) > 18:
+            exp = 10 ** 18  # "huge" (a literal cannot have 10^18 fraction digits); bounded before any use
         else:
             exp = int(ed) if ed else 0
         if esgn == "-":
